@@ -842,6 +842,51 @@ func (*BytecodeFunction).AppendUint16
   ensures be: ins(f, old(len(f.Instructions))) * 256 + ins(f, old(len(f.Instructions)) + 1) == n
   ensures prefix: forall k int :: 0 <= k && k < old(len(f.Instructions)) ==> ins(f, k) == old(ins(f, k))
 
+// the value pool: the returned index is in range and holds the value; the size class says how
+// many bytes the index needs; earlier entries never move (indices already emitted stay valid)
+func (*BytecodeFunction).AddValue
+  props C29
+  requires f != nil
+  ensures idx: 0 <= ret0 && ret0 < len(f.Values)
+  ensures holds: elem(f.Values, ret0).flag == obj.flag && elem(f.Values, ret0).data == obj.data && elem(f.Values, ret0).ptr == obj.ptr
+  ensures size: (ret1 == bytecode.UINT8_SIZE <==> ret0 <= 255) && (ret1 == bytecode.UINT16_SIZE <==> 255 < ret0 && ret0 <= 65535)
+  ensures grows: len(f.Values) == old(len(f.Values)) || (len(f.Values) == old(len(f.Values)) + 1 && ret0 == old(len(f.Values)))
+  ensures prefix: forall k int :: 0 <= k && k < old(len(f.Values)) ==> elem(f.Values, k) == old(elem(f.Values, k))
+  ensures code: f.Instructions == old(f.Instructions) && f.LineInfoList == old(f.LineInfoList)
+  loop 1
+    invariant f.Values == old(f.Values) && f.Instructions == old(f.Instructions) && f.LineInfoList == old(f.LineInfoList) && i == -1
+    invariant forall k int :: 0 <= k && k < len(f.Values) ==> elem(f.Values, k) == old(elem(f.Values, k))
+    decreases len(f.Values) - range_idx
+
+// ---- decoding operands (the VM side of the emitter's encoding) ------------------------------
+// ipOff(vm): offset of the instruction pointer inside the running function.  Operands are read
+// big-endian and the pointer moves past them; a read needs that many bytes left.
+spec fn ipOff(vm *Thread) int = vm.ip - sliceptr(vm.bytecode.Instructions)
+spec fn ipRoom(vm *Thread, n int) bool = vm != nil && vm.bytecode != nil && sliceptr(vm.bytecode.Instructions) > 0 && 0 <= ipOff(vm) && ipOff(vm) + n <= len(vm.bytecode.Instructions)
+
+func (*Thread).readByte
+  props C29
+  requires ipRoom(vm, 1)
+  ensures val: ret == old(ins(vm.bytecode, ipOff(vm)))
+  ensures ip: vm.ip == old(vm.ip) + 1 && vm.bytecode == old(vm.bytecode)
+
+func (*Thread).readUint16
+  props C29
+  requires ipRoom(vm, 2)
+  ensures val: ret == old(ins(vm.bytecode, ipOff(vm)) * 256 + ins(vm.bytecode, ipOff(vm) + 1))
+  ensures ip: vm.ip == old(vm.ip) + 2 && vm.bytecode == old(vm.bytecode)
+
+func (*Thread).readUint32
+  props C29
+  requires ipRoom(vm, 4)
+  ensures val: ret == old(((ins(vm.bytecode, ipOff(vm)) * 256 + ins(vm.bytecode, ipOff(vm) + 1)) * 256 + ins(vm.bytecode, ipOff(vm) + 2)) * 256 + ins(vm.bytecode, ipOff(vm) + 3))
+  ensures ip: vm.ip == old(vm.ip) + 4 && vm.bytecode == old(vm.bytecode)
+
+func NewCatchEntry
+  props C29 C14
+  assigns fresh
+  ensures ret != nil && fresh(ret) && ret.From == from && ret.To == to && ret.JumpAddress == jumpAddress && ret.Finally == finally
+
 func (*BytecodeFunction).AppendUint32
   props C29 C32
   requires wfFn(f) && len(f.LineInfoList) >= 1
